@@ -363,7 +363,7 @@ def check_as_image(prog, rep, DATA):
     d = s = None
     if good:
         d, s = news[0][1]["?data"], news[0][1]["?size"]
-        rng = find(d, ("agg", "*Range::Range", (C(0), "?end")))
+        rng = find(d, ("agg", "*Range::Range", (C(0), "?end"))) or find(d, ("agg", "*RangeTo::RangeTo", ("?end",)))   # 0..n or ..n
         good = bool(rng) and any(n == self_data for n in walk(d)) and isinstance(rng[0][1]["?end"][1], str) and "BUFFER_SIZE" in rng[0][1]["?end"][1]
         sz = fold(s)
         good_sz = match(sz, ("call", "*Size::new", "_", (C("WIDTH"), C("HEIGHT")))) is not None
